@@ -22,7 +22,7 @@ def sh(cmd, **kw):
 
 
 def setup(k):
-    w = f"{SCRATCH}/r{k}"
+    w = f"{SCRATCH}/sr{k}"
     sh(f"git -C /repo worktree remove --force {w}/repo; rm -rf {w}; mkdir -p {w}")
     sh(f"rsync -a --exclude .git --exclude .work {VERIF}/ {w}/verif/")
     sh(f"git -C /repo worktree add -f --detach {w}/repo HEAD")
@@ -72,7 +72,7 @@ def do_prop(w, prefix, off, prop, extra_checks=()):
         except Exception:
             meta = {}
         meta["property"] = prop
-        meta["round"] = 2 if off == 2 else off
+        meta["round"] = off // 2 + 1
         results = {}
         for c in (prop,) + tuple(extra_checks):
             results[c] = run_check(w, f"{dst}/patch.diff", c)
